@@ -42,12 +42,21 @@ inductive Op
   /-- pop at clock `now`; `k` = number of head drops CoDel's control law asked for -/
   | pop (now : Nat) (k : Nat)
   | peek (now : Nat)
+  /-- `DeadlineQueue.purge_expired()` at clock `now` (the other policies have no such method: no-op) -/
+  | purge (now : Nat)
+  /-- the read-only public accessors of the policy at clock `now`, asked about flow `f`:
+      DeadlineQueue `count_expired()`, `count_valid()`; FairQueue `get_flow_depth(f)`, `flow_count`;
+      WeightedFairQueue `get_flow_depth(f)`, `flow_count`, `get_flow_weight(f)`;
+      AdaptiveLIFO `is_congested` -/
+  | query (now : Nat) (f : Nat)
 deriving Repr
 
 inductive Out
   | pushed (ok : Bool)
   | popped (r : Option Item)
   | peeked (r : Option Item)
+  | purged (n : Nat)
+  | info (xs : List Nat)
 deriving Repr, DecidableEq
 
 /-- heap / deque entry: the item and its `insert_order` -/
@@ -275,10 +284,45 @@ def peek (c : Cfg) (s : St) (now : Nat) : Option Item :=
   | .deadline => (extractMin (s.q.filter fun e => decide (now ≤ e.item.key))).map (·.1.item)
   | .fair | .wfq => (s.flows.find? fun fl => !fl.q.isEmpty).bind (·.q.head?)
 
+/-! ## purge_expired and the read-only accessors -/
+
+def isLive (now : Nat) (e : Ent) : Bool := decide (now ≤ e.item.key)
+
+/-- `DeadlineQueue.purge_expired`: every entry with `deadline < now` is removed and counted as
+    expired; the survivors are re-heapified (the heap is a list under extract-minimum here, so the
+    survivors simply keep their insertion order) -/
+def purge (c : Cfg) (s : St) (now : Nat) : St × Nat :=
+  match c.kind with
+  | .deadline =>
+    let live := s.q.filter (isLive now)
+    ({ s with q := live, drp := s.drp + (s.q.length - live.length) }, s.q.length - live.length)
+  | _ => (s, 0)
+
+def flowDepth (fs : List FlowSt) (f : Nat) : Nat :=
+  match findFlow fs f with
+  | some fl => fl.q.length
+  | none => 0
+
+def query (c : Cfg) (s : St) (now f : Nat) : List Nat :=
+  match c.kind with
+  | .deadline =>
+    let live := (s.q.filter (isLive now)).length
+    [s.q.length - live, live]
+  | .fair => [flowDepth s.flows f, s.flows.length]
+  | .wfq =>
+    [flowDepth s.flows f, s.flows.length,
+     match findFlow s.flows f with
+     | some fl => fl.weight
+     | none => c.weights.getD f 1]
+  | .adaptive => [if decide (c.thr ≤ s.q.length) then 1 else 0]
+  | _ => []
+
 def step (c : Cfg) (s : St) : Op → St × Out
   | .push it _ coin rdrop => ((push c s it coin rdrop).1, .pushed (push c s it coin rdrop).2)
   | .pop now k => ((pop c s now k).1, .popped (pop c s now k).2)
   | .peek now => (s, .peeked (peek c s now))
+  | .purge now => ((purge c s now).1, .purged (purge c s now).2)
+  | .query now f => (s, .info (query c s now f))
 
 /-- run an operation list, collecting the outputs and the state after every operation -/
 def run (c : Cfg) : St → List Op → List (Out × St)
